@@ -212,11 +212,13 @@ class Validator:
 
         # an error on an item in a list of values (e.g. SIZE 10.5 20 or a POINTS pair)
         # applies to the keyword holding the list
+        item_index = None
         while (
             path
             and isinstance(path[-1], int)
             and not isinstance(dictutils.findkey(rootdict, *path), dict)
         ):
+            item_index = path[-1]
             path = path[:-1]
 
         if not path:
@@ -259,6 +261,14 @@ class Validator:
             else:
                 # position for the root object is stored in the root of the dict
                 pd = d["__position__"]
+
+            if isinstance(pd, list):
+                # repeated keywords (PROCESSING, INCLUDE, several POINTS blocks) store a position
+                # for each occurrence
+                if item_index is not None and item_index < len(pd):
+                    pd = pd[item_index]
+                else:
+                    pd = pd[0]
 
             error_dict["line"] = pd.get("line")
             error_dict["column"] = pd.get("column")
